@@ -213,7 +213,7 @@ def unit(arg):
 def run(ctx):
     rep = Report('C15', 'model_checking')
     thorough = not ctx.quick
-    budget = 150 if ctx.quick else 1200
+    budget = 400 if ctx.quick else 2400
     names = list(shapes(thorough))
     with mp.Pool(ctx.jobs) as pool:
         results = pool.map(unit, [(n, thorough, budget) for n in names], chunksize=1)
